@@ -103,6 +103,10 @@ def exec_case(case):
         data = np.stack([code + 100000 * k for k in range(planes)], axis=-1)
     else:
         data = code
+    # the map as the caller holds it: native integers, or the big-endian arrays astropy hands out for FITS data
+    if case.get("map_dtype"):
+        data = data.astype(case["map_dtype"])
+    data_before = data.copy()
     pts = case["points"]
     shape = tuple(case["shape"])
     big = case.get("big")
@@ -122,6 +126,10 @@ def exec_case(case):
     if req.get("alias"):
         lat_in = lon_in  # one array object handed over for both coordinates
     with toasty_call("no-exception", f"{variant} sampler on a {ny}x{nx} map, request {req or 'as two fresh float arrays'}"):
+        if case.get("other_sampler_first"):
+            # another sampler (another layout) is made from the same map first, and used
+            g = make_sampler(case["other_sampler_first"], data)
+            g(np.array([[0.3, 1.0]]), np.array([[0.1, -0.2]]))
         f = make_sampler(variant, data)
         if req.get("before"):
             # an earlier request through the same sampler and the same array objects, which are then refilled in place
@@ -140,6 +148,8 @@ def exec_case(case):
             lon_in.setflags(write=False)
             lat_in.setflags(write=False)
         out = np.asarray(f(lon_in, lat_in))
+    if data.dtype != data_before.dtype or not np.array_equal(data, data_before):
+        raise Violation("cell", f"{variant} sampler on a {ny}x{nx} map of dtype {data_before.dtype}: the caller's map was modified by creating / using the sampler")
     exp_shape = shape + ((planes,) if planes else ())
     if out.shape != exp_shape:
         raise Violation("shape", f"{variant}: output shape {out.shape}, expected {exp_shape}")
@@ -260,6 +270,11 @@ def strat(draw, tier):
         if "before" in how:
             req["before"] = [[draw(st.floats(-2 * math.pi, 2 * math.pi)), draw(st.floats(-math.pi / 2, math.pi / 2))] for _ in range(draw(st.integers(1, 4)))]
         case["request"] = req
+    if draw(st.integers(0, 4)) == 0:
+        # maps as FITS readers deliver them (big-endian), and narrower / wider native types
+        case["map_dtype"] = draw(st.sampled_from([">i4", ">f8", ">f4", "<f8", "<i4", ">i8"]))
+    if draw(st.integers(0, 5)) == 0:
+        case["other_sampler_first"] = draw(st.sampled_from(["plain", "zeroright", "planet", "planet_zeroleft", variant]))
     if draw(st.integers(0, 14)) == 0:
         case["big"] = draw(st.sampled_from([[256, 256], [520, 256], [256, 520], [600, 130], [130, 600], [70000, 1], [1, 3000], [300, 300], [257, 256], [1000, 70]]))
     return case
